@@ -8,6 +8,7 @@ import (
 	"sort"
 	"strings"
 	"sync"
+	"sync/atomic"
 
 	goat "github.com/avos-io/goat"
 	"google.golang.org/grpc"
@@ -415,10 +416,112 @@ func c04Run(tier string, seed int64, idx int) *core.Result {
 			samples = append(samples, map[string]any{"rpc": rp, "request_md_keys": keysOf(wantReq), "header_keys": keysOf(wantHdr), "trailer_keys": keysOf(wantTrl)})
 		}
 	}
+	if len(res.Violations) == 0 {
+		c04StalledSendHeader(tier, idx, b, h, res)
+	}
 	res.Sample = samples
 	res.Evals = int64(res.Stats["rpcs"])
 	finish(tier, b, h, res)
 	return res
+}
+
+// c04StalledSendHeader: a handler's SendHeader is stuck handing its frame to the connection's
+// busy writer (back-pressure) while a second goroutine of the same handler calls SetHeader.
+// Whatever that SetHeader answers must be true: a header it accepted (nil) reaches the caller.
+func c04StalledSendHeader(tier string, idx int, b *bed.Bed, h *bed.Hooks, res *core.Result) {
+	cc := b.Conns[0]
+	gates := NewGates()
+	var armed atomic.Bool
+	parked := make(chan struct{}, 1)
+	release := make(chan struct{})
+	h.On("srv.writer.beforeWrite", func(uint64) {
+		if armed.CompareAndSwap(true, false) {
+			parked <- struct{}{}
+			<-release
+		}
+	})
+	defer h.On("srv.writer.beforeWrite", nil)
+	h1, h2, h3 := metadata.Pairs("first", "1"), metadata.Pairs("second", "2", "second-bin", "\x00\xff"), metadata.Pairs("third", "3")
+	tag := fmt.Sprintf("stall%d", idx)
+	var errA, errB error
+	b.Impl.SetStream(tag, func(t, k string, ss grpc.ServerStream) error {
+		ss.SetHeader(h1)
+		gates.Wait("go")
+		aDone, bDone := make(chan struct{}), make(chan struct{})
+		go func() { errA = ss.SendHeader(h2); close(aDone) }()
+		gates.Wait("send-header-blocked")
+		go func() { errB = ss.SetHeader(h3); close(bDone) }()
+		<-aDone
+		<-bDone
+		ss.SendMsg(&svc.BV{Value: []byte("m")})
+		return nil
+	})
+	b.Impl.SetUnary("stallu-"+tag, func(ctx context.Context, t string, req []byte) ([]byte, error) { return req, nil })
+	s, err := svc.Open(context.Background(), cc, "bidi", tag, nil)
+	if err != nil {
+		res.Verdict, res.Note = core.Inconclusive, "stalled-header stream did not open"
+		return
+	}
+	quiet(tier)
+	armed.Store(true)
+	udone := make(chan struct{})
+	go func() { svc.Invoke(context.Background(), cc, "stallu-"+tag, []byte("x")); close(udone) }()
+	quiet(tier)
+	select {
+	case <-parked:
+	default:
+		res.Verdict, res.Note = core.Inconclusive, "the server's writer was not caught before a write"
+		close(release)
+		gates.OpenAll()
+		return
+	}
+	gates.Open("go")
+	quiet(tier) // SendHeader is handing its frame to the busy writer
+	gates.Open("send-header-blocked")
+	quiet(tier) // the second goroutine's SetHeader has answered or is waiting its turn
+	close(release)
+	var gotHdr metadata.MD
+	done := make(chan struct{})
+	go func() {
+		defer close(done)
+		gotHdr, _ = s.Header()
+		s.CloseSend()
+		for {
+			if _, err := s.Recv(); err != nil {
+				break
+			}
+		}
+	}()
+	st, snap := settle(tier, func() bool {
+		select {
+		case <-done:
+			select {
+			case <-udone:
+				return true
+			default:
+			}
+		default:
+		}
+		return false
+	})
+	if st == "stuck" {
+		res.ViolateD("call-never-returns/stalled-send-header", map[string]any{"goat_goroutines": goatParked(snap)}, "stream with a SendHeader stalled behind a busy writer never completes")
+		return
+	} else if st != "ok" {
+		res.Verdict, res.Note = core.Inconclusive, "watchdog"
+		return
+	}
+	want := norm(h1, h2)
+	if errB == nil {
+		want = norm(h1, h2, h3)
+	}
+	if errA != nil {
+		res.Stat("stalled_send_header_failed", 1)
+	} else if d := mdDiff(want, gotHdr); d != "" {
+		res.Violate("response-header-altered/stalled-send-header", "SendHeader stalled behind a busy writer while a second goroutine called SetHeader (answer: %v): headers at the caller: %s", errB, d)
+	}
+	res.Stat("stalled_send_header_cases", 1)
+	res.Stat("rpcs", 1)
 }
 
 func keysOf(md metadata.MD) []string {
@@ -434,10 +537,10 @@ func init() {
 	core.Register(&core.Prop{
 		ID:    "C04",
 		Level: "exploration",
-		Rule:  "each case = 20 RPCs (4 kinds cycling) on one connection; per RPC seeded metadata sets: request 0..16 keys via the outgoing context plus 0..4 (and appends to existing keys) via a client interceptor, response headers in two SetHeader/SendHeader calls (repeated keys append), trailers in two SetTrailer calls, keys over [0-9a-z_.-] in random letter case (no two keys equal up to case), 1..4 values, printable ASCII for text keys, arbitrary bytes (NUL, 0xFF, empty) under -bin; header way in {set only, SendHeader, with first message, with the trailer, with the trailer after a first SendMsg that fails to marshal}; 1 in 4 handlers fail. Compared key by key (lower-cased keys, per-key order, byte-exact) at the handler, via Header()/Trailer(), via the client stats InHeader for unary headers and on the wire for unary trailers. distinct_nontrivial = RPCs (all distinct by seed) having a multi-valued key or a -bin value with NUL/non-ASCII bytes.",
+		Rule:  "each case = 20 RPCs (4 kinds cycling) on one connection; per RPC seeded metadata sets: request 0..16 keys via the outgoing context plus 0..4 (and appends to existing keys) via a client interceptor, response headers in two SetHeader/SendHeader calls (repeated keys append), trailers in two SetTrailer calls, keys over [0-9a-z_.-] in random letter case (no two keys equal up to case), 1..4 values, printable ASCII for text keys, arbitrary bytes (NUL, 0xFF, empty) under -bin; header way in {set only, SendHeader, with first message, with the trailer, with the trailer after a first SendMsg that fails to marshal}; 1 in 4 handlers fail; plus one directed RPC per case in which SendHeader is stalled behind the busy connection writer (parked at its hook) while a second goroutine of the handler calls SetHeader: a header that call accepted must reach the caller. Compared key by key (lower-cased keys, per-key order, byte-exact) at the handler, via Header()/Trailer(), via the client stats InHeader for unary headers and on the wire for unary trailers. distinct_nontrivial = RPCs (all distinct by seed) having a multi-valued key or a -bin value with NUL/non-ASCII bytes.",
 		Plan:  func(tier string, seed int64) int { return tierN(tier, 30, 2000) },
 		Run:   c04Run,
-		RequiredStats: func(string) []string { return []string{"rpcs", "metadata_keys_checked"} },
+		RequiredStats: func(string) []string { return []string{"rpcs", "metadata_keys_checked", "stalled_send_header_cases"} },
 		Assumptions: []string{"no two keys of one set are equal up to letter case (their merge order is unspecified)"},
 	})
 }
